@@ -36,6 +36,12 @@ func NewCOM(data []byte) (*COM, error) {
 		return nil, fmt.Errorf("[NewCOM] error: %w", err)
 	}
 
+	// the file is ONE data object: the outer tag is that of the first object, and anything behind it would be
+	// covered by the hash in the security object but never shown
+	if len(nodes.Nodes()) != 1 {
+		return nil, fmt.Errorf("[NewCOM] file must consist of exactly one data object (found %d)", len(nodes.Nodes()))
+	}
+
 	rootNode := nodes.NodeByTag(COMTag)
 
 	if !rootNode.IsValidNode() {
